@@ -30,7 +30,7 @@ CHECKS = {
    text='Seeded histories of 1-150 public edit operations (nodes, lines with implicit/explicit pins, removals, get_or_add_fork, port list edits, eliminate_1to1_forks, substitute with generated implementations, copy, pickle round trip after which the history continues on the restored object). Removals are repeated on stale handles, cells and forks may share a name, node kinds and names are exotic, a fork may have hundreds of branches. After every step all clauses of the statement are evaluated on the real object (indices, name lookups, exact pin back-references by scanning all pin lists, gap-free fork outputs, statistics) and the graph must be isomorphic to the dict-based reference model.',
    ref='5.7', note='Well-formed use only (acyclic, one driver per fork, explicit pins on free positions); substitute re-synchronises the model after the invariants passed; trailing None pin slots are not compared.'),
  'C10': dict(technique='deterministic simulation: seeded transformation histories with restore (pickle/copy) steps, checked after every step against a hierarchical reference evaluator',
-   text='No schedule exists here; what is explored is the history: a seeded netlist with instances of every cell of every built-in library (random pin subsets connected) goes through 1-8 transformation steps (copy, pickle round trip, eliminate_1to1_forks, substitute with generated and nested implementations, resolve_tlib_cells); after every step the list of ports/state elements and the exhaustive 2-valued table at their data pins (independent evaluator: hierarchical through implementation circuits before resolving, flat afterwards) must be unchanged; no library cell may remain after resolving, the libraries must still offer every cell name of the pinned tree, and the shared implementation circuits must stay unmodified; after resolving and at the end of a history the same table is also taken through the library's own LogicSim on the transformed circuit (the function as a user observes it). Two genuine defects (latch cells without latch in their name; state-element order after node removal) are recorded known findings.',
+   text='No schedule exists here; what is explored is the history: a seeded netlist with instances of every cell of every built-in library (random pin subsets connected) goes through 1-8 transformation steps (copy, pickle round trip, eliminate_1to1_forks, substitute with generated and nested implementations, resolve_tlib_cells); after every step the list of ports/state elements and the exhaustive 2-valued table at their data pins (independent evaluator: hierarchical through implementation circuits before resolving, flat afterwards) must be unchanged; no library cell may remain after resolving, the libraries must still offer every cell name of the pinned tree, and the shared implementation circuits must stay unmodified; after resolving and at the end of a history the same table is also taken through the LogicSim of the library itself on the transformed circuit (the function as a user observes it). Two genuine defects (latch cells without latch in their name; state-element order after node removal) are recorded known findings.',
    ref='5.8', note='Unconnected instance inputs only where the function is unambiguous; one library per case; RefEval written from gate names; exhaustive up to 10 variables, else 1024 fixed rows.'),
  'C13': dict(technique='deterministic simulation: capacity faults paired with unlimited runs, accumulation under seeded GPU thread orders and real-thread interleavings, capture read-out of recorded state',
    text='Overflow indicator: capacity-faulted run vs paired capacity-64 run, every output whose indicator is clear must carry exactly the unlimited waveform. Accumulation: abuf must equal the weighted rise/fall count of the waveform snapshots taken when each op finishes, cumulatively over reuse batches, on the CPU path, under seeded mock-GPU thread orders, under fine-grained interleaving (where a non-atomic update loses counts) and for the first k lanes. Capture summary: s[3..8], s[10] against what the stored output waveform encodes for capture times selected on/around actual transitions.',
